@@ -93,6 +93,23 @@ func genC01(seed uint64, run int, tier string) Scenario {
 			cmd += " " + word(r, lower+digits, 40, 120) // long input: larger than half a small search depth
 		}
 		cmd = strings.Join(strings.Fields(cmd), " ")
+		if r.IntN(6) == 0 {
+			// an output line that mentions the prompt text in its middle (after a blank, so that no
+			// prefix of the output looks like a prompt)
+			l := pick(r, "uplink ", "see ", "peer ") + strings.TrimRight(sc.Prompt, " ") + pick(r, "Gi0/3 up", " is the prompt", "")
+			if l[len(l)-1] == ' ' {
+				l += "."
+			}
+			if len(g.Toks) == 0 {
+				g.Toks, g.Lines = []peer.Tok{{S: l}}, []string{l}
+			} else {
+				g.Toks = append([]peer.Tok{{S: l}, {S: sc.NL}}, g.Toks...)
+				g.Lines = append([]string{l}, g.Lines...)
+			}
+			if len(l) > g.Long {
+				g.Long = len(l)
+			}
+		}
 		sc.Cmds = append(sc.Cmds, C01Cmd{Cmd: cmd, Out: g.Toks, Lines: g.Lines})
 		if g.Long > longest {
 			longest = g.Long
